@@ -226,6 +226,20 @@ Theorem shared_scalar_races :
 Proof. exact shared_scalar_races_thm. Qed.
 Print Assumptions shared_scalar_races.
 
+(* ---------------------------------------------------------------- run-length encoded batches (population boundaries) *)
+(* the boundary cases of the correspondence check hold batches of thousands of traces as (row, multiplicity) runs and compare
+   the accumulators with weighted sums over the runs: these ARE the class sums of the expanded batch, for every run list *)
+Theorem runlength_sums_are_class_sums : forall e parts f w p s rl,
+  class_sum (pbatch_of e parts (expand_rl rl)) f w p s = rl_class_sum e parts f w p s rl.
+Proof. exact rl_class_sum_thm. Qed.
+Print Assumptions runlength_sums_are_class_sums.
+
+Theorem runlength_sums_are_template_class_sums : forall e parts (g : list Z -> Qc) p rl,
+  tclass_sum (tbatch_of e parts (expand_rl rl)) p (fun t => g (fst (nth t (expand_rl rl) ([], []))))
+  = wsum (fun r => if (lutz parts (nth 0%nat (snd r) 0%Z) =? Z.of_nat p)%Z then g (fst r) else 0) rl.
+Proof. exact rl_tclass_sum_thm. Qed.
+Print Assumptions runlength_sums_are_template_class_sums.
+
 (* ---------------------------------------------------------------- the footprints, read off the source (T-tie) *)
 (* over the table regenerated from /repo on every run: in the body of each of the five prange loops every store goes to an
    array private to the iteration, or is under `if ivar == 0` (and then every store to that array is), or carries the
@@ -305,4 +319,24 @@ Example pcase_check_discriminates :
   /\ pcase_check (mk_case [[Fin 4 0; Fin 2 0]] [false; true]) = false
   /\ pcase_check (mk_case [[Fin 2 0; Fin 2 0]] [false; true]) = false
   /\ pcase_check (mk_case [[Fin 2 0; Fin 1 0]] [false; false]) = false.
+Proof. vm_compute. repeat split; reflexivity. Qed.
+
+(* run-length boundary case: class 0 has 1024 + 1 traces of sample 3 and 2, class 1 has 512; a doubled class (the rows[-0:]
+   slip) is rejected; thread-count cases: uint8-like samples 200, 255 (squares need the precision), a histogram *)
+Definition mk_b (sum0 : fval) : kcase :=
+  KBP {| bp_prec := F32; bp_parts := [0; 1];
+         bp_batches := [[(([3], [0]), 1024%positive); (([2], [1]), 512%positive); (([2], [0]), 1%positive); (([7], [5]), 9%positive)]];
+         bp_obs := [{| po_runs := [{| kr_choices := [true]; kr_threads := 2; kr_log := [true] |}]; po_result := [[NaN]];
+                       po_cnt := [[Fin 1025 0; Fin 512 0]]; po_sum := [[[sum0; Fin 1024 0]]]; po_sq := [[[Fin 9220 0; Fin 2048 0]]] |}] |}.
+Definition mk_tt (sq0 : fval) : kcase :=
+  KTT {| tt_prec := F32; tt_exp := 0; tt_batches := [[[200]; [255]]; [[1]]];
+         tt_obs := [{| tt_threads := [1; 2; 16]%nat; tt_n := 3; tt_sum := [Fin 456 0]; tt_sq := [sq0]; tt_mean := [Fin 152 0];
+                       tt_var := [Fin 12190379 (-10)] |}] |}.
+Definition mk_mi (c00 : fval) : kcase :=
+  KMI {| mi_parts := [0; 1]; mi_exp := 0; mi_edges := [0; 4; 8]; mi_batches := [[([0], [0]); ([4], [0]); ([8], [1]); ([9], [1]); ([3], [7])]];
+         mi_obs := [{| mi_threads := [1; 8]%nat; mi_acc := [[[[c00]; [Fin 0 0]]; [[Fin 1 0]; [Fin 1 0]]]]; mi_result := [[NaN]] |}] |}.
+Example new_checks_discriminate :
+  kcase_check (mk_b (Fin 3074 0)) = true /\ kcase_check (mk_b (Fin 6146 0)) = false
+  /\ kcase_check (mk_tt (Fin 105026 0)) = true /\ kcase_check (mk_tt (Fin 98 0)) = false
+  /\ kcase_check (mk_mi (Fin 1 0)) = true /\ kcase_check (mk_mi (Fin 2 0)) = false.
 Proof. vm_compute. repeat split; reflexivity. Qed.
